@@ -152,9 +152,7 @@ impl TView {
     /// empty_cycles is duplicate-free and contains exactly the indices of the empty cycles
     pub open spec fn wf_empty(&self) -> bool {
         &&& self.empty.no_duplicates()
-        &&& forall|k: int| 0 <= k < self.empty.len()
-            ==> 0 <= #[trigger] self.empty[k] < self.n() && self.cyc(self.empty[k] as int).len() == 0
-        &&& forall|i: int| 0 <= i < self.n() && (#[trigger] self.cyc(i)).len() == 0 ==> self.empty.contains(i as usize)
+        &&& forall|x: CycleIdx| #[trigger] self.empty.contains(x) <==> (0 <= x < self.n() && self.cyc(x as int).len() == 0)
     }
     /// every vehicle of a cycle has a well-formed non-dummy tour (network-independent part)
     pub open spec fn tours_real(&self, tours: Map<VehicleIdx, Tour>) -> bool {
@@ -503,6 +501,8 @@ impl TView {
             -(self.total_len() * vehicle_bound()) <= self.total_counter <= self.total_len() * vehicle_bound(),
             0 <= self.total_violation <= self.total_len() * vehicle_bound(),
             0 <= self.total_len() * vehicle_bound() <= 0x400_0000_0000_0000,
+            forall|i: int| 0 <= i < self.n() ==>
+                -0x400_0000_0000_0000 <= (#[trigger] self.cycles[i]).maintenance_counter <= 0x400_0000_0000_0000,
     {
         let ls = lens_of(self.cycles);
         let cs = counters_of(self.cycles);
@@ -531,6 +531,13 @@ impl TView {
         let tl = self.total_len();
         assert(0 <= tl * vehicle_bound() <= 0x400_0000_0000_0000) by (nonlinear_arith)
             requires 0 <= tl <= 0x2_0000, vehicle_bound() == 0x200_0000_0000;
+        assert forall|i: int| 0 <= i < self.n() implies
+            -0x400_0000_0000_0000 <= (#[trigger] self.cycles[i]).maintenance_counter <= 0x400_0000_0000_0000 by {
+            let l = self.cyc(i).len() as int;
+            assert(0 <= l <= tl);
+            assert(l * vehicle_bound() <= tl * vehicle_bound()) by (nonlinear_arith)
+                requires 0 <= l <= tl, vehicle_bound() == 0x200_0000_0000;
+        }
     }
 }
 
@@ -564,6 +571,9 @@ pub proof fn lemma_frame(old_t: TView, new_t: TView, net: &Network, tours: Map<V
     ensures
         new_t.wf_but_empty(net, tours2),
         new_t.total_len() == old_t.total_len() - old_t.cyc(k).len() + nc.cycle@.len(),
+        new_t.n() == old_t.n(),
+        new_t.cyc(k) == nc.cycle@,
+        forall|i: int| 0 <= i < old_t.n() && i != k ==> #[trigger] new_t.cyc(i) == old_t.cyc(i),
 {
     let n = old_t.n();
     assert(new_t.n() == n);
@@ -658,5 +668,144 @@ pub proof fn lemma_perm_tours_ok(t: TView, net: &Network, tours: Map<VehicleIdx,
     }
     assert forall|v: VehicleIdx| #[trigger] t.lookup.contains_key(v) && t.cycle_of(v) == k implies nc.contains(v) by {
         assert(t.cyc(t.cycle_of(v)).contains(v));
+    }
+}
+/// C15 frame lemma for a cycle appended at the end of `cycles`
+pub proof fn lemma_push_cycle(old_t: TView, new_t: TView, net: &Network, tours: Map<VehicleIdx, Tour>, tours2: Map<VehicleIdx, Tour>, nc: TransitionCycle)
+    requires
+        old_t.wf_but_empty(net, tours),
+        new_t.cycles == old_t.cycles.push(nc),
+        forall|x: VehicleIdx| #[trigger] old_t.lookup.contains_key(x) ==> tours2.contains_key(x) && tours2[x] == tours[x],
+        cycle_tours_ok(net, tours2, nc.cycle@),
+        nc.cycle@.no_duplicates(),
+        forall|a: int| 0 <= a < nc.cycle@.len() ==> !old_t.lookup.contains_key(#[trigger] nc.cycle@[a]),
+        old_t.total_len() + nc.cycle@.len() <= max_vehicles(),
+        forall|v: VehicleIdx| #[trigger] new_t.lookup.contains_key(v) ==>
+            (nc.cycle@.contains(v) && new_t.cycle_of(v) == old_t.n())
+            || (old_t.lookup.contains_key(v) && new_t.cycle_of(v) == old_t.cycle_of(v)),
+        forall|a: int| 0 <= a < nc.cycle@.len() ==> new_t.lookup.contains_key(#[trigger] nc.cycle@[a]) && new_t.cycle_of(nc.cycle@[a]) == old_t.n(),
+        forall|v: VehicleIdx| #[trigger] old_t.lookup.contains_key(v) ==> new_t.lookup.contains_key(v) && new_t.cycle_of(v) == old_t.cycle_of(v),
+        nc.maintenance_counter == spec_cycle_counter(net, tours2, nc.cycle@),
+        new_t.total_counter == old_t.total_counter + nc.maintenance_counter,
+        new_t.total_violation == old_t.total_violation + max0(nc.maintenance_counter as int),
+    ensures
+        new_t.wf_but_empty(net, tours2),
+        new_t.total_len() == old_t.total_len() + nc.cycle@.len(),
+        new_t.n() == old_t.n() + 1,
+        new_t.cyc(old_t.n()) == nc.cycle@,
+        forall|i: int| 0 <= i < old_t.n() ==> #[trigger] new_t.cyc(i) == old_t.cyc(i),
+{
+    let n = old_t.n();
+    let k = n;
+    assert(new_t.n() == n + 1);
+    assert(new_t.cyc(k) == nc.cycle@);
+    assert forall|i: int| 0 <= i < n implies #[trigger] new_t.cyc(i) == old_t.cyc(i) by {}
+    assert(lens_of(new_t.cycles) =~= lens_of(old_t.cycles).push(nc.cycle@.len() as int));
+    lemma_sum_push(lens_of(old_t.cycles), nc.cycle@.len() as int);
+    assert forall|i: int| 0 <= i < n + 1 implies (#[trigger] new_t.cyc(i)).no_duplicates() by {
+        if i != k { assert(old_t.cyc(i).no_duplicates()); }
+    }
+    assert forall|i: int, j: int, a: int, b: int|
+        0 <= i < n + 1 && 0 <= j < n + 1 && i != j && 0 <= a < new_t.cyc(i).len() && 0 <= b < new_t.cyc(j).len()
+        implies #[trigger] new_t.cyc(i)[a] != #[trigger] new_t.cyc(j)[b] by {
+        if i != k && j != k {
+            assert(old_t.cyc(i)[a] != old_t.cyc(j)[b]);
+        } else if i == k {
+            let y = old_t.cyc(j)[b];
+            assert(old_t.lookup.contains_key(y) && old_t.cycle_of(y) == j);
+            assert(nc.cycle@[a] != y);
+        } else {
+            let y = old_t.cyc(i)[a];
+            assert(old_t.lookup.contains_key(y) && old_t.cycle_of(y) == i);
+            assert(nc.cycle@[b] != y);
+        }
+    }
+    assert(new_t.wf_cycles());
+    assert forall|v: VehicleIdx| #[trigger] new_t.lookup.contains_key(v)
+        implies 0 <= new_t.cycle_of(v) < n + 1 && new_t.cyc(new_t.cycle_of(v)).contains(v) by {
+        if !(nc.cycle@.contains(v) && new_t.cycle_of(v) == k) {
+            assert(old_t.lookup.contains_key(v));
+            assert(old_t.cyc(old_t.cycle_of(v)).contains(v));
+            assert(new_t.cyc(old_t.cycle_of(v)) == old_t.cyc(old_t.cycle_of(v)));
+        }
+    }
+    assert forall|i: int, a: int| 0 <= i < n + 1 && 0 <= a < new_t.cyc(i).len()
+        implies new_t.lookup.contains_key(#[trigger] new_t.cyc(i)[a]) && new_t.cycle_of(new_t.cyc(i)[a]) == i by {
+        if i != k {
+            let y = old_t.cyc(i)[a];
+            assert(old_t.lookup.contains_key(y) && old_t.cycle_of(y) == i);
+        }
+    }
+    assert(new_t.wf_lookup());
+    assert forall|i: int, a: int| 0 <= i < n + 1 && 0 <= a < new_t.cyc(i).len()
+        implies tours2.contains_key(#[trigger] new_t.cyc(i)[a]) && tour_ok(net, &tours2[new_t.cyc(i)[a]]) by {
+        if i != k {
+            let y = old_t.cyc(i)[a];
+            assert(old_t.lookup.contains_key(y) && old_t.cycle_of(y) == i);
+            assert(tours.contains_key(y) && tour_ok(net, &tours[y]));
+        }
+    }
+    assert(new_t.wf_tours(net, tours2));
+    assert forall|i: int| 0 <= i < n + 1
+        implies new_t.cycles[i].maintenance_counter == spec_cycle_counter(net, tours2, #[trigger] new_t.cyc(i)) by {
+        if i != k {
+            let c = old_t.cyc(i);
+            assert forall|a: int| 0 <= a < c.len() implies tours[#[trigger] c[a]] == tours2[c[a]] by {
+                let y = old_t.cyc(i)[a];
+                assert(old_t.lookup.contains_key(y) && old_t.cycle_of(y) == i);
+            }
+            lemma_counter_same(net, tours, tours2, c);
+            assert(old_t.cycles[i].maintenance_counter == spec_cycle_counter(net, tours, old_t.cyc(i)));
+        }
+    }
+    assert(counters_of(new_t.cycles) =~= counters_of(old_t.cycles).push(nc.maintenance_counter as int));
+    lemma_sum_push(counters_of(old_t.cycles), nc.maintenance_counter as int);
+    assert(violations_of(new_t.cycles) =~= violations_of(old_t.cycles).push(max0(nc.maintenance_counter as int)));
+    lemma_sum_push(violations_of(old_t.cycles), max0(nc.maintenance_counter as int));
+    assert(new_t.wf_counters(net, tours2));
+}
+
+// ---- membership in duplicate-free index lists (empty_cycles) -----------------------------------------
+pub proof fn lemma_drop_last_contains(s: Seq<CycleIdx>)
+    requires s.no_duplicates(), s.len() > 0,
+    ensures s.drop_last().no_duplicates(),
+        forall|x: CycleIdx| #[trigger] s.drop_last().contains(x) <==> (s.contains(x) && x != s.last()),
+{
+    let d = s.drop_last();
+    assert forall|x: CycleIdx| #[trigger] d.contains(x) <==> (s.contains(x) && x != s.last()) by {
+        if d.contains(x) {
+            let i = choose|i: int| 0 <= i < d.len() && d[i] == x;
+            assert(s[i] == x);
+        }
+        if s.contains(x) && x != s.last() {
+            let i = choose|i: int| 0 <= i < s.len() && s[i] == x;
+            assert(d[i] == x);
+        }
+    }
+}
+pub proof fn lemma_push_contains(s: Seq<CycleIdx>, y: CycleIdx)
+    requires s.no_duplicates(), !s.contains(y),
+    ensures s.push(y).no_duplicates(),
+        forall|x: CycleIdx| #[trigger] s.push(y).contains(x) <==> (s.contains(x) || x == y),
+{
+    let d = s.push(y);
+    assert forall|x: CycleIdx| #[trigger] d.contains(x) <==> (s.contains(x) || x == y) by {
+        if d.contains(x) {
+            let i = choose|i: int| 0 <= i < d.len() && d[i] == x;
+            if i < s.len() { assert(s[i] == x); }
+        }
+        if s.contains(x) {
+            let i = choose|i: int| 0 <= i < s.len() && s[i] == x;
+            assert(d[i] == x);
+        }
+        if x == y { assert(d[s.len() as int] == x); }
+    }
+    assert forall|i: int, j: int| 0 <= i < d.len() && 0 <= j < d.len() && i != j implies d[i] != d[j] by {
+        if i < s.len() && j < s.len() {
+        } else if i < s.len() {
+            assert(s.contains(s[i]));
+        } else {
+            assert(s.contains(s[j]));
+        }
     }
 }
